@@ -51,7 +51,10 @@ def make_par(p, q, free, loop):
         v = q[p["m"]].par
         if p.get("fn") == "sin":
             v = sfpar.par_funcs.sin(v)
-        return v if k == 1 else k * v
+        v = v if k == 1 else k * v
+        if "m2" in p:
+            v = v + p.get("k2", 1) * q[p["m2"]].par
+        return v
     if "free" in p:
         v = free[p["free"]]
         v = v if k == 1 else k * v
@@ -414,8 +417,15 @@ def rand_spec(rng, idx, features):
     'dagger', 'meas', 'measured', 'free', 'array', 'array1d', 'kwargs', 'fourier', 'string', 'options',
     'options_no_target', 'unused_tail', 'complexnum', 'mz'"""
     n = rng.randint(1, 5)
+    if "wide" in features:
+        n = rng.randint(11, 14)          # two-digit subsystem indices
     L = rng.randint(1, 7)
     ops, measured = [], []
+    if "wide" in features and "measured" in features:
+        # measure high-index and low-index modes first, so that feed-forward can use q10, q11, … and mix them with q1
+        for m in rng.sample([10, 11, 12, 13][:n - 10], rng.randint(1, min(2, n - 10))) + rng.sample(range(1, 4), rng.randint(0, 2)):
+            ops.append(dict(cls="MeasureHomodyne", regs=[m], pars=[0.0], select=rng.choice([None, 0.25, -0.5])))
+            measured.append(m)
     for _ in range(L):
         kinds = ["gate1", "gate1", "gate2", "channel", "prep"]
         if "meas" in features:
@@ -443,10 +453,15 @@ def rand_spec(rng, idx, features):
             if isgate and "dagger" in features and rng.random() < 0.35:
                 op["dagger"] = True
             avail = [m for m in measured if m not in regs]
-            if isgate and pars and "measured" in features and avail and rng.random() < 0.4:
+            if isgate and pars and "measured" in features and avail and rng.random() < (0.7 if "wide" in features else 0.4):
                 pars[0] = {"m": rng.choice(avail), "k": rng.choice([1, 2, 0.5, -1]), "fn": rng.choice([None, None, "sin"])}
+                if len(avail) >= 2 and rng.random() < 0.5:
+                    # an expression of two measured modes, e.g. q1 - q10
+                    m2 = rng.choice([m for m in avail if m != pars[0]["m"]])
+                    pars[0] = {"m": pars[0]["m"], "k": pars[0]["k"], "fn": None, "m2": m2, "k2": rng.choice([1, -1, 2])}
             elif isgate and pars and "free" in features and rng.random() < 0.4:
-                pars[rng.randrange(len(pars))] = {"free": rng.choice(["x", "alpha", "y1", "gamma", "beta", "E"]), "k": rng.choice([1, 1, 2, -0.5]),
+                pars[rng.randrange(len(pars))] = {"free": rng.choice(["x", "alpha", "y1", "gamma", "beta", "E", "q1x", "q_factor", "quality", "pump", "p3x"]),
+                                                 "k": rng.choice([1, 1, 2, -0.5]),
                                                  "add": rng.choice([0, 0, 1])}
             elif kind == "gate1" and cls in ("Sgate", "Dgate") and "complexnum" in features and rng.random() < 0.3:
                 pars[0] = abs(pars[0]) if not isinstance(pars[0], dict) else pars[0]
@@ -632,9 +647,15 @@ def rand_tdm_spec(rng, idx, features):
     N = [rng.randint(1, 3)]
     if "nlist" in features and rng.random() < 0.6:
         N = [rng.randint(1, 2) for _ in range(rng.randint(2, 3))]
+    if "wide" in features:
+        N = [rng.randint(11, 13)] if rng.random() < 0.5 else [rng.randint(5, 7), rng.randint(5, 7)]
     n = sum(N)
     k = rng.randint(1, 4)
+    if "wide" in features:
+        k = rng.randint(11, 13)          # loop variables p10, p11, …
     T = rng.randint(1, 4)
+    if "wide" in features:
+        T = rng.choice([2, 11, 12])      # two-digit bin indices
     params = []
     for _ in range(k):
         kind = rng.choice(["float", "float", "int", "pi"])
@@ -648,6 +669,8 @@ def rand_tdm_spec(rng, idx, features):
     unused = list(range(k))
     rng.shuffle(unused)
     L = rng.randint(max(1, (k + 1) // 2), k + 3)
+    if "wide" in features:
+        unused = sorted(unused)          # pop() takes the highest loop variables first
     for _ in range(L):
         kind = rng.choice(["gate1", "gate1", "gate2", "meas"] if n >= 2 else ["gate1", "gate1", "meas"])
         if kind == "gate1":
